@@ -198,6 +198,8 @@ func (w *World) auditHistoriesOpt(t *rapid.T, minedOnly bool) {
 				}
 			}
 		}
+		// the same histories as clients see them through the API handlers (entries and status codes)
+		w.auditHistoriesAPI(t, wi, m, exp, minedOnly)
 		// deposits are never spendable funds nor picked by automatic selection (also covered by C01's Spendable figure)
 		if !minedOnly {
 			w.checkWithdrawalSequences(t, wi, m, exp)
